@@ -1,7 +1,7 @@
 """C01 — Interest / Data encode-decode round trip (structure of the two-pass encoder and of make/parse). DESIGN §4 C01."""
 import ast
 
-from .common import ctx, returns, calls_in_ctx, reach_from_succ, site, srcs_text, caller_object_reaches
+from .common import ctx, returns, calls_in_ctx, reach_from_succ, site, srcs_text, caller_object_reaches, full_text
 from .c08 import size_rules, stale_rule
 from ..flow import callee_attr
 from ..linexpr import lin, show, NotLinear
@@ -180,18 +180,29 @@ def run(R):
                     if not all(cx.cfg.dominates(n, r_) for r_ in rets_):
                         conditional[(cx.qual, l[len(lhs_prefix) + 1:])] = n
         return out
-    mk = attr_copies(mi, 'interest.interest', 'interest_param')
-    pk = attr_copies(pi, 'params', 'ret')
+    def local_from(cx, pred, what):
+        c = [nm for n in cx.cfg.nodes for (nm, v) in cx.cfg.defs_of(n) if isinstance(v, ast.AST) and pred(v)]
+        if len(set(c)) != 1:
+            raise AnalysisError(f'{cx.qual}: cannot identify {what} (candidates {sorted(set(c))})')
+        return c[0]
+    # roles, not names: the decoded model, the parameter object being filled, the packet model being built
+    p_ret = local_from(pi, lambda v: isinstance(v, ast.Call) and callee_attr(v) == 'parse' and 'InterestPacketValue' in ast.unparse(v.func), 'the decoded Interest')
+    p_par = local_from(pi, lambda v: isinstance(v, ast.Call) and ast.unparse(v.func) == 'InterestParam', 'the InterestParam being filled')
+    m_pkt = local_from(mi, lambda v: isinstance(v, ast.Call) and ast.unparse(v.func) == 'InterestPacket', 'the Interest packet being built')
+    m_par = [a.arg for a in mi.f.node.args.args][1]
+    m_name, m_app = [a.arg for a in mi.f.node.args.args][0], [a.arg for a in mi.f.node.args.args][2]
+    mk = attr_copies(mi, f'{m_pkt}.interest', m_par)
+    pk = attr_copies(pi, p_par, p_ret)
     for f in fields:
         inst = f'InterestParam.{f}'
         if f == 'forwarding_hint':
-            okm = any(n.kind == 'for' and ast.unparse(n.ast.iter) == 'interest_param.forwarding_hint' for n in mi.cfg.nodes) and \
+            okm = any(n.kind == 'for' and ast.unparse(n.ast.iter) == f'{m_par}.forwarding_hint' for n in mi.cfg.nodes) and \
                 any(callee_attr(c) == 'append' and 'forwarding_hint.names' in ast.unparse(c.func) for (n, c) in calls_in_ctx(mi))
-            okp = any(n.kind == 'for' and ast.unparse(n.ast.iter) == 'ret.forwarding_hint.names' for n in pi.cfg.nodes) and \
-                any(callee_attr(c) == 'append' and ast.unparse(c.func.value) == 'params.forwarding_hint' for (n, c) in calls_in_ctx(pi))
+            okp = any(n.kind == 'for' and ast.unparse(n.ast.iter) == f'{p_ret}.forwarding_hint.names' for n in pi.cfg.nodes) and \
+                any(callee_attr(c) == 'append' and ast.unparse(c.func.value) == f'{p_par}.forwarding_hint' for (n, c) in calls_in_ctx(pi))
         else:
-            okm = mk.get(f) == f'interest_param.{f}'
-            okp = pk.get(f) == f'ret.{f}'
+            okm = mk.get(f) == f'{m_par}.{f}'
+            okp = pk.get(f) == f'{p_ret}.{f}'
         cond = None if f == 'forwarding_hint' else (conditional.get((mi.qual, f)) or conditional.get((pi.qual, f)))
         if okm and okp and cond is not None:
             who = mi if (mi.qual, f) in conditional else pi
@@ -208,20 +219,29 @@ def run(R):
         R.fail('C01.SIB.1', 'InterestParam :: unknown fields', F3 + '.make_interest', str(extra), f'fields {extra} are copied but are not InterestParam fields', site(mi, mi.f.node))
     inst = 'make_interest / parse_interest :: name and ApplicationParameters'
     rp = returns(pi)
-    okr = mk.get('name') == 'name' and mk.get('application_parameters') == 'app_param' and rp and all(
-        isinstance(r.ast.value, ast.Tuple) and [ast.unparse(e) for e in r.ast.value.elts] == ['ret.name', 'params', 'ret.application_parameters', 'sig_ptrs'] for r in rp)
+    okr = mk.get('name') == m_name and mk.get('application_parameters') == m_app and rp and all(
+        isinstance(r.ast.value, ast.Tuple) and len(r.ast.value.elts) == 4 and
+        [ast.unparse(e) for e in r.ast.value.elts[:3]] == [f'{p_ret}.name', p_par, f'{p_ret}.application_parameters'] and
+        full_text(pi, r.ast.value.elts[3]).startswith('SignaturePtrs(') for r in rp)
     if okr:
         R.ok('C01.SIB.1', inst, site(pi, rp[0].ast))
     else:
         R.fail('C01.SIB.1', inst, F3 + '.parse_interest', rp[0].ast if rp else 'def parse_interest', 'name / parameters / ApplicationParameters are not passed through by name', site(pi, pi.f.node))
     md, pd = ctx(R, F3 + '.make_data'), ctx(R, F3 + '.parse_data')
-    dk = attr_copies(md, 'data.data', '')
+    d_pkt = local_from(md, lambda v: isinstance(v, ast.Call) and ast.unparse(v.func) == 'DataPacket', 'the Data packet being built')
+    d_ret = local_from(pd, lambda v: isinstance(v, ast.Call) and callee_attr(v) == 'parse' and 'DataPacketValue' in ast.unparse(v.func), 'the decoded Data')
+    d_args = [a.arg for a in md.f.node.args.args]
+    dk = attr_copies(md, f'{d_pkt}.data', '')
     rp = returns(pd)
-    pdefs = [ast.unparse(v) for n in pd.cfg.nodes for (nm, v) in pd.cfg.defs_of(n) if nm == 'params' and isinstance(v, ast.AST)]
+    # the second element returned is the decoded MetaInfo, or a fresh MetaInfo() when the element is absent
+    mvars = {ast.unparse(r.ast.value.elts[1]) for r in rp if isinstance(r.ast.value, ast.Tuple) and len(r.ast.value.elts) == 4}
+    pdefs = [ast.unparse(v) for n in pd.cfg.nodes for (nm, v) in pd.cfg.defs_of(n) if nm in mvars and isinstance(v, ast.AST)]
     inst = 'make_data / parse_data :: name, MetaInfo, content'
-    okd = dk.get('name') == 'name' and dk.get('meta_info') == 'meta_info' and dk.get('content') == 'content' and rp and all(
-        isinstance(r.ast.value, ast.Tuple) and [ast.unparse(e) for e in r.ast.value.elts] == ['ret.name', 'params', 'ret.content', 'sig_ptrs'] for r in rp) \
-        and sorted(pdefs) == ['MetaInfo()', 'ret.meta_info']
+    okd = dk.get('name') == d_args[0] and dk.get('meta_info') == d_args[1] and dk.get('content') == d_args[2] and rp and all(
+        isinstance(r.ast.value, ast.Tuple) and len(r.ast.value.elts) == 4 and
+        [ast.unparse(r.ast.value.elts[0]), ast.unparse(r.ast.value.elts[2])] == [f'{d_ret}.name', f'{d_ret}.content'] and
+        full_text(pd, r.ast.value.elts[3]).startswith('SignaturePtrs(') for r in rp) \
+        and len(mvars) == 1 and sorted(pdefs) == sorted(['MetaInfo()', f'{d_ret}.meta_info'])
     if okd:
         R.ok('C01.SIB.1', inst, site(pd, rp[0].ast))
     else:
@@ -283,7 +303,19 @@ def run(R):
     if len(sets) != 1 or ast.unparse(sets[0].args[1]) != 'digest_buf':
         probs.append((ne, 'the digest buffer is not handed to the packet encoder', ne.f.node))
     psets = [c for (n, c) in calls_in_ctx(npf, attr='set_arg') if ast.unparse(c.func.value) == 'self.digest_buffer']
-    ptests = [t for t in npf.cfg.nodes if t.kind == 'test' and ast.unparse(t.ast) in ('typ == Component.TYPE_PARAMETERS_SHA256', 'Component.TYPE_PARAMETERS_SHA256 == typ')]
+    def _is_digest_type_test(t):
+        a = t.ast
+        if not (isinstance(a, ast.Compare) and len(a.ops) == 1 and isinstance(a.ops[0], ast.Eq)):
+            return False
+        sides = [a.left, a.comparators[0]]
+        if not any(ast.unparse(x).endswith('TYPE_PARAMETERS_SHA256') for x in sides):
+            return False
+        other = [x for x in sides if not ast.unparse(x).endswith('TYPE_PARAMETERS_SHA256')]
+        if len(other) != 1:
+            return False
+        srcs = [other[0]] if not isinstance(other[0], ast.Name) else [v for (d, v) in npf.cfg.defs_reaching(t, other[0].id) if isinstance(v, ast.AST)]
+        return bool(srcs) and all(isinstance(v, ast.Call) and callee_attr(v) == 'get_type' for v in srcs)
+    ptests = [t for t in npf.cfg.nodes if t.kind == 'test' and _is_digest_type_test(t)]
     if len(psets) != 1 or len(ptests) != 1:
         raise AnalysisError('InterestNameField.parse_from: digest handling not recognised')
     if ast.unparse(psets[0].args[1]) != 'Component.get_value(ele)' or npf.node_of(psets[0]).id in npf.cfg.reachable(removed_edges={(ptests[0].id, True)}):
